@@ -89,6 +89,8 @@ func init() {
 					}
 					// the stored entries may have been written for a bucket of the same name that no longer exists
 					p.OtherBucket = p.Backend != "mem" && rng.Intn(2) == 0
+					// auto-reset 'latest' is about a group WITHOUT checkpoints; one that lies beyond the vBucket stops the start-up all the same
+					p.AutoReset = []string{"", "latest"}[rng.Intn(2)]
 					if rel == "above" {
 						p.VBs = subset(n)
 						for _, vb := range p.VBs {
